@@ -13,7 +13,7 @@ open Py Py.Csv
 /-- `from_csv` restores every list of values `to_csv` has written, up to the trimming `to_csv`
     does (the statement of `C01.csv_roundtrip`, proved here from the same lemmas so that C15 does
     not depend on the theorems of C01). -/
-theorem fromCsv_toCsv (vs : List (List Char)) : fromCsv (toCsv vs) = .ok (vs.map strip) := by
+theorem fromCsv_toCsv_conv (vs : List (List Char)) : fromCsv (toCsv vs) = .ok (vs.map strip) := by
   simp only [toCsv, dropLast2_writeRow]
   generalize vs.map strip = uv
   match uv with
@@ -87,7 +87,7 @@ theorem map_strip_filter (ts : List (List Char)) :
 /-- What the strict reader gets back from the text the converter writes. -/
 theorem fromCsv_mainText (ws : List (List Char)) :
     fromCsv (mainText false ws) = some (ws.map Py.strip) := by
-  simp [fromCsv, mainText, _root_.Xml.fromCsv_toCsv]
+  simp [fromCsv, mainText, _root_.Xml.fromCsv_toCsv_conv]
 
 /-! ## strip -/
 
@@ -141,7 +141,7 @@ theorem strip_ne_nil_of_part (a v b : List Char) (hv : v.all Py.isSpace = false)
     does not skip the element). -/
 theorem strip_mainText_ne_nil (ws : List (List Char)) (hne : ws ≠ [])
     (hv : ∀ w ∈ ws, Py.strip w ≠ []) : Py.strip (mainText false ws) ≠ [] := by
-  have h := _root_.Xml.fromCsv_toCsv ws
+  have h := _root_.Xml.fromCsv_toCsv_conv ws
   simp only [mainText, Bool.false_eq_true, ↓reduceIte]
   generalize _root_.Xml.toCsv ws = t at h
   unfold _root_.Xml.fromCsv at h
